@@ -839,10 +839,6 @@ class SeedPhase(SubCheck):
                     res = {"<rc>": r.returncode, "<stderr>": r.stderr[-400:] if r.returncode else ""}
                     for f in sorted(os.listdir(out)):
                         res[f] = _strip_cmdline(open(os.path.join(out, f)).read())
-                    # the order PedReader.samples() has under this seed (to pin a path's pair of orders to two real runs)
-                    code = "import sys; sys.path.insert(0, %r); from whatshap.pedigree import PedReader; print(','.join(PedReader(%r).samples()))" % (REPO, ped_path)
-                    env = dict(os.environ, PYTHONHASHSEED=seed)
-                    res["<samples>"] = subprocess.run([sys.executable, "-c", code], stdout=subprocess.PIPE, stderr=subprocess.PIPE, text=True, env=env).stdout.strip().split(",")
                     results.append(res)
                 self._real_cache[key] = results
             finally:
@@ -853,22 +849,15 @@ class SeedPhase(SubCheck):
         """Replay.  `differing`: the outputs that differ between the two orders of this path in the stub world.
         * a differing output must show a hash-seed dependence of the REAL command (two of the seeds disagree on that file) -
           otherwise the counter-example is not confirmed;
-        * a path without differences: the real runs of all seeds agree, or - where the real command is seed dependent (known
-          finding) - the two runs whose PedReader.samples() order equals this path's two orders agree (skipped when no tested
-          seed realises them)."""
+        * a path without differences: the real runs of all seeds agree - unless the real command is seed dependent on this
+          input for another pair of orders (known finding); a run of the real CLI cannot be pinned to one solver-chosen order,
+          and the real solver may change other genotypes than the contract stub, so nothing is asserted for such a path."""
         results = self.real_results(shape, sc)
         e.check(results[0]["<rc>"] == 0, "harness: the real command failed on the materialised input: %s" % results[0].get("<stderr>"), None)
         dep = {k: any(results[0].get(k) != r.get(k) for r in results[1:]) for k in self.REAL_FILES + ("<rc>",)}
         for k in differing:
             kk = k if k in dep else "<rc>"
             e.check(not dep.get(kk), "output %s depends on the iteration order of a set (hash seed)" % k, None)
-        if differing or not any(dep.values()):
-            return
-        if shape.get("use_ped") and len(orders) == 2:
-            pair = [[r for r in results if r["<samples>"] == o] for o in orders]
-            if pair[0] and pair[1]:
-                for k in self.REAL_FILES:
-                    e.check(pair[0][0].get(k) == pair[1][0].get(k), "output %s differs between the two real runs that realise this path's orders" % k, None)
 
     def classify(self, shape, v):
         info = v.get("info") or {}
